@@ -242,6 +242,10 @@ func (rn *runner) replayOne(b Behaviour, idx int) {
 				default:
 					ret = "complaint"
 				}
+				if err == nil && r != nil && r.Approved && st.Kind == "otherpoly" && bytes.Equal(r.SID, w.SID) {
+					// the approval of a deal on another polynomial is labelled with THIS session's id
+					ret = "approve-for-other-deal"
+				}
 				if err == nil && r != nil {
 					if r.Index != uint32(in.Me) || schnorr.Verify(w.S, w.VPub[in.Me], ad.RespHash(w.S, r), r.Sig) != nil {
 						ret += "+unusable"
